@@ -77,6 +77,14 @@ func Classify(src []byte, body *hclsyntax.Body, e *Eff, off int, path string, in
 			return PosClass{Kind: "block-type", Body: body, Eff: e, Prefix: string(src[b.TypeRange.Start.Byte:off]), Path: path, Block: b, BS: bs, InDyn: inDyn, Unknown: unknown}
 		}
 		dyn := inDyn || (b.Type == "dynamic" && bs == nil && e.DynAncestor)
+		if bs == nil && b.Type == "dynamic" && !inDyn && e.Known && e.DynTypes != nil {
+			// the label of a dynamic block names one of the block types it can generate
+			for i, lr := range b.LabelRanges {
+				if i == 0 && (inRange(lr, off) || off == lr.End.Byte) {
+					return PosClass{Kind: "dyn-label", Block: b, Label: i, Path: path, Eff: e, InDyn: false, Unknown: unknown}
+				}
+			}
+		}
 		if bs == nil {
 			return PosClass{Kind: "other", Path: path + "/unknown-block", InDyn: dyn}
 		}
